@@ -135,6 +135,13 @@ func (c *Compiler) Compile(node parser.Node) error {
 			if n := c.numConstants(); n > 65536 {
 				return c.errorf(stmt, "too many constants (%d > 65536)", n)
 			}
+			// so are the indexes of global variables
+			if c.parent == nil {
+				if n := c.symbolTable.MaxSymbols(); n > 65536 {
+					return c.errorf(stmt,
+						"too many global variables (%d > 65536)", n)
+				}
+			}
 		}
 	case *parser.ExprStmt:
 		if err := c.Compile(node.Expr); err != nil {
